@@ -349,7 +349,8 @@ def run_case(prop_id, sub_name, case, tier="quick", open_ids=()):
 
 
 def _write_violation(prop_id, sub_name, failure):
-    d = os.path.join(VERIF_DIR, "out", "violations", prop_id)
+    d = os.path.join(os.environ.get("VERIF_OUT_DIR") or os.path.join(VERIF_DIR, "out"),
+                     "violations", prop_id)
     os.makedirs(d, exist_ok=True)
     body = dict(property=prop_id, subcheck=sub_name, case=failure["case"],
                 message=failure["message"])
@@ -476,7 +477,8 @@ def run_property(prop_id, tier="quick", seed=1, only_sub=None, scale=1.0, procs=
             errors.append(f"{r['sub']}: {r['error']}")
         if r["failure"] and r["failure"].get("case") is not None:
             path = _write_violation(prop_id, r["sub"], r["failure"])
-            violations.append((r["sub"], r["failure"], os.path.relpath(path, VERIF_DIR)))
+            violations.append((r["sub"], r["failure"], os.path.relpath(path, VERIF_DIR)
+                               if path.startswith(VERIF_DIR + os.sep) else path))
     for k in per_sub:
         per_sub[k]["distinct_nontrivial"] = len(per_sub[k]["distinct_nontrivial"])
 
@@ -505,8 +507,9 @@ def run_property(prop_id, tier="quick", seed=1, only_sub=None, scale=1.0, procs=
         wall_s=round(wall, 2),
         violations=len(violations),
     )
-    os.makedirs(os.path.join(VERIF_DIR, "evidence"), exist_ok=True)
-    with open(os.path.join(VERIF_DIR, "evidence", f"{prop_id}.json"), "w") as f:
+    evdir = os.environ.get("VERIF_EVIDENCE_DIR") or os.path.join(VERIF_DIR, "evidence")
+    os.makedirs(evdir, exist_ok=True)
+    with open(os.path.join(evdir, f"{prop_id}.json"), "w") as f:
         json.dump(evidence, f, indent=1, sort_keys=True, ensure_ascii=True)
         f.write("\n")
 
